@@ -79,4 +79,14 @@ Fixpoint sl_full_walk (fuel : nat) (e : Env (F:=F)) (pts : list (BP (F:=F))) (of
     end
   else Ok x.
 
+(* SetSpeedTrainSim::walk: while i < speed_trace.len() { step()? }  (len = number of time stamps) *)
+Fixpoint ss_full_walk (fuel : nat) (e : Env (F:=F)) (times speeds : list F) (fmax : F)
+    (x : (TState (F:=F) * ResCache) * Consist (F:=F)) : res ((TState (F:=F) * ResCache) * Consist (F:=F)) :=
+  if Nat.ltb (k_i (ts_k (fst (fst x)))) (length times) then
+    match fuel with
+    | O => Err 1399
+    | S f => let? x' := ss_full_step e times speeds fmax x in ss_full_walk f e times speeds fmax x'
+    end
+  else Ok x.
+
 End TrainFull.
